@@ -163,6 +163,27 @@ def check_assign_restores(check, an: Analysis, rule: str):
         if not ok:
             verdict = False
             bad = bad or path
+    # ... and whatever leaves the managed block: a generator context manager is judged on
+    # its own paths as well, the block raising any class its handlers name (a forced close,
+    # KeyboardInterrupt, SystemExit are ways out like any other)
+    if assign.fn.kind == 'ctxgen':
+        for path in an.paths(assign):
+            holes = [i for i, e in enumerate(path.events) if e.kind == 'hole']
+            if not holes:
+                continue
+            n += 1
+            stores = [(i, e) for i, e in _loop_stores(path) if e.fn is assign.fn]
+            before = [x for x in stores if x[0] < holes[0]]
+            after = [x for x in stores if x[0] > holes[0]]
+            ok = bool(before) and len(after) == 1
+            if ok:
+                reads = []
+                held = rules.value_expr(path, after[0][0], after[0][1]['value'], trace=reads)
+                ok = rules.normalise_state_aliases(ast.unparse(held)) == 'self.loop' and \
+                    bool(reads) and min(reads) <= before[0][0]
+            if not ok:
+                verdict = False
+                bad = bad or path
     check.instance(rule, 'StateHandler.assign:restores', verdict and n >= 2,
                    where_fn(assign.fn), 'every way out of the managed block (%d paths of '
                    'Loop.run incl. exceptions) stores the previously saved loop back' % n,
